@@ -229,7 +229,7 @@ func (g G) tamper(label string, m *MsgSpec) {
 				ops = append(ops, "soap_header_wrap", "soap_header_wrap")
 			}
 		default:
-			ops = append(common, "strip_sigparams", "sig_flip", "swap_sigalg", "foreign_sig", "dup_param", "truncate_query", "move-post", "empty-sig", "sig_flip", "dsa_forge", "body-override", "body-override", "blank-sig", "blank-sig", "post-query", "post-query")
+			ops = append(common, "strip_sigparams", "sig_flip", "swap_sigalg", "foreign_sig", "dup_param", "truncate_query", "move-post", "empty-sig", "sig_flip", "dsa_forge", "body-override", "body-override", "blank-sig", "blank-sig", "post-query", "post-query", "sig-without-alg", "sig-without-alg")
 		}
 		switch op := g.pick(lab+".op", ops...); op {
 		case "field-acs":
@@ -306,6 +306,10 @@ func (g G) tamper(label string, m *MsgSpec) {
 			m.Tamper = append(m.Tamper, Tamper{Op: "truncate_query", A: g.intn(lab+".off", 3000)})
 		case "dsa_forge":
 			m.Tamper = append(m.Tamper, Tamper{Op: "dsa_forge", A: g.intn(lab+".dsa", 2)})
+		case "sig-without-alg":
+			// a (forged) Signature parameter without any SigAlg
+			m.Sign = ""
+			m.Tamper = append(m.Tamper, Tamper{Op: "blank_sig", S: "Zm9yZ2VkIHNpZ25hdHVyZSB2YWx1ZQ%3D%3D", A: 0})
 		case "post-query":
 			m.Method = "POST-query"
 		case "move-post":
